@@ -106,4 +106,4 @@ func (s RegistrySourceFinal) FinalSourceAddr(realSource RemoteSource) RemoteSour
 // finalRegistrySourcePattern is a non-exhaustive regexp which looks only for
 // the expected three components of a RegistrySourceFinal string encoding: the
 // package address, version, and subpath. The subpath is optional.
-var finalRegistrySourcePattern = regexp.MustCompile(`^(.+)@([^/]+)(//(.+))?$`)
+var finalRegistrySourcePattern = regexp.MustCompile(`^(.+?)@([^/]+)(//(.+))?$`)
